@@ -4,6 +4,7 @@
 mod conv;
 mod feelops;
 mod modelops;
+mod ops_c16;
 mod wsops;
 
 use serde_json::{json, Value as J};
@@ -77,6 +78,7 @@ fn dispatch(state: &mut modelops::State, req: &J) -> J {
     "dtable" => guarded(|| modelops::op_dtable(req)),
     "threads" => guarded(|| modelops::op_threads(state, req)),
     "ws" => guarded(|| wsops::op_ws(state, req)),
+    "c16" => guarded(|| ops_c16::op_c16(req)),
     _ => json!({"error": format!("unknown op '{}'", op)}),
   }
 }
